@@ -17,6 +17,39 @@ CHECKS = {
             'DESIGN §4 C06'),
 }
 
+_BEAR_NOTE = ('Trusted: Lean kernel + axioms propext/Classical.choice/Quot.sound; the harness (hint/object translation written from '
+              'typing introspection, AST canonicalisation, generators); CPython evaluation of generated code is modelled by `eval` and '
+              'validated behaviourally, not verified; objects are well-behaved containers; hint grammar = the modelled one (user generics, '
+              'protocols beyond isinstance, third-party hints out of scope).')
+_BEAR_TECH = ('Lean 4 proof by structural induction (sat -> chk -> eval(gen), all hints/objects/draws) + code-level translation validation '
+              'of make_check_expr against the Lean generator + behaviour differential under forced sampler draws')
+CHECKS.update({
+    'C01': (_BEAR_TECH, 'Theorems (Props/C01.lean): published meaning implies the sampled check for every draw; compiler correctness '
+            'eval(gen h) = chk h for every hint of any nesting and every object, incl. the walrus-variable discipline and validators; '
+            'hence no false alarm and no exception on conforming objects. Tie on every run: real generated source parsed with ast and '
+            'compared node-for-node with gen (exhaustive shapes + seeded hints, 3 configurations), five entry points under 9 forced draws.',
+            _BEAR_NOTE, 'DESIGN §4 C01'),
+    'C02': (_BEAR_TECH, 'Theorems (Props/C02.lean): rejection for every draw when the top-level class, tuple length/any position, Literal, '
+            'type[...], union, validator fails or every item/key/value is bad; every index reachable by a 32-bit draw; is_random=False '
+            'inspects item 0; accepted implies a consistent sampled path; elided children accept everything. Same two ties as C01 with the '
+            'mutated-object stream; a real accept where the model rejects for that draw is the violation.', _BEAR_NOTE, 'DESIGN §4 C02'),
+    'C09': (_BEAR_TECH + ' + measured item reads on instrumented containers across a size sweep',
+            'Theorems (Props/C09.lean): items read by the generated code <= levels(h), a constant of the hint alone (one item per container '
+            'level, key+value per mapping level), for objects of any size, accepted or rejected; non-collections read nothing. Tie: counting '
+            'container subclasses measure real reads (deciding path must not exceed the model; reads incl. violation message must not grow '
+            'over repeat factors 1/40/1500).', _BEAR_NOTE + ' repr() time and ABC hook costs are not item reads.', 'DESIGN §4 C09'),
+    'C10': (_BEAR_TECH + ' + spy objects (one-shot iterables, generators, iterators, defaultdicts)',
+            'Theorems (Props/C10.lean): the generated code never applies len/index/next(iter()) to an object whose class lacks the '
+            'capability (in the model, iterating a non-re-iterable object is an error and eval never errs), quasi-iterable hints decide '
+            'non-collections by isinstance alone, shallow hints generate isinstance only. Tie: code-level comparison (any construct outside '
+            'the read-only expression language is reported) + spies checked against every hint shape must be left unconsumed/unchanged.',
+            _BEAR_NOTE, 'DESIGN §4 C10'),
+    'C12': (_BEAR_TECH, 'Theorems (Props/C12.lean): is_valid = boolean meaning; inline validator code evaluates to the boolean meaning given '
+            'an identifier and only writes its own temporaries; Annotated[T, V...] = chk T and all Vi in every pith position. Tie: '
+            'validator shapes (5 factories, 3 operators, ignorable/unignorable metahints, 1-3 validators) in every pith position, '
+            'code-level and behavioural.', _BEAR_NOTE, 'DESIGN §4 C12'),
+})
+
 PENDING = {
 }
 
